@@ -29,13 +29,21 @@ type ItemSets struct {
 }
 
 func GetItemSets(lexPart *ast.LexPart) *ItemSets {
+	// Regular definitions are macros, but the items of a set cannot tell different
+	// references to the same regular definition apart. Therefore the item sets are
+	// built from the token patterns with all regular definitions expanded.
+	inlined, err := lexPart.InlineRegDefs()
+	if err != nil {
+		panic(err)
+	}
+
 	itemSets := &ItemSets{
 		sets:    make([]*ItemSet, 0, 256),
-		lexPart: lexPart,
+		lexPart: inlined,
 		symbols: symbols.NewSymbols(lexPart),
 	}
 
-	itemSets.Add(ItemsSet0(lexPart, itemSets.symbols))
+	itemSets.Add(ItemsSet0(inlined, itemSets.symbols))
 
 	return itemSets.Closure()
 }
